@@ -426,4 +426,35 @@ def rule_j(ctx: Ctx) -> None:
     c20.rule_f(ctx, 'C06.j')
 
 
-RULES = [rule_a, rule_b, rule_c, rule_d, rule_e, rule_f, rule_g, rule_h, rule_i, rule_j]
+def rule_k(ctx: Ctx) -> None:
+    """The chunks of a lazy resource are not reached from their parents, so nobody has put the namespace declarations of the intermediate
+    ancestors in scope (XsdElement.raw_decode sets the context of the element itself, the converter's initial map holds the root's).  The
+    driver that tracks the live ancestors re-establishes their xmlns contexts, level by level, whenever the chain changes."""
+    rule = 'C06.k'
+    f = ctx.idx.method(SCHEMA, 'iter_errors')
+    ctx.analysed(f.qualname)
+    g = cfg_of(ctx, f)
+    sites = []
+    for n, c in call_nodes(g, lambda c: isinstance(c.func, ast.Attribute) and c.func.attr == 'set_xmlns_context'):
+        gs = guards(ctx, f, n)
+        loop = [t for t, lab in gs if lab == 'T' and t.startswith('for ') and 'enumerate(ancestors' in t]
+        args = [text(a) for a in c.args]
+        lvl_ok = False
+        if loop and len(args) == 2:
+            hdr = loop[0]                   # "for k, e in enumerate(ancestors)"
+            vars_ = hdr[4:hdr.index(' in ')].replace('(', '').replace(')', '').split(',')
+            vars_ = [v.strip() for v in vars_]
+            start1 = 'start=' in hdr or ', 1)' in hdr
+            lvl_ok = len(vars_) == 2 and args == [vars_[1], vars_[0]] and not start1
+        sites.append((n, c, bool(loop), lvl_ok, ('prev_ancestors != ancestors', 'T') in gs or ('prev_ancestors == ancestors', 'F') in gs))
+    good = [x for x in sites if x[2] and x[3] and x[4]]
+    ok = bool(good)
+    ctx.ob(rule, 'iter_errors: when the chain of ancestors changes, the xmlns context of every ancestor is set at its own level', f.loc(good[0][1]) if good else f.loc(), ok,
+           '' if ok else 'no `converter.set_xmlns_context(ancestor, level)` over enumerate(ancestors) under the ancestor-change test: with a lazy depth of 2 or more a prefix '
+           'declared on an intermediate element is unmapped for the chunks below it - lazy validation reports "unmapped prefix" for a document that full validation accepts',
+           key='iter_errors|ancestor-xmlns')
+    ctx.explain('C06.k: in XMLSchemaBase.iter_errors a call converter.set_xmlns_context(e, k) sits in a loop `for k, e in enumerate(ancestors)` (levels from 0) that is control '
+                'dependent on `prev_ancestors != ancestors`.')
+
+
+RULES = [rule_a, rule_b, rule_c, rule_d, rule_e, rule_f, rule_g, rule_h, rule_i, rule_j, rule_k]
